@@ -81,6 +81,10 @@ FMTS = ['%g', '%.3f', '%.1e', '%d %%']
 
 
 def _rand_records(arg):
+    return dc.safe(_rand_records0, arg)
+
+
+def _rand_records0(arg):
     seed, n = arg
     rnd = random.Random(seed)
     recs = []
@@ -93,6 +97,10 @@ def _rand_records(arg):
         # pairs: unrelated, and related by widening / narrowing one side
         a = dc.rand_type(rnd, rnd.choice((0, 0, 1, 2)))
         b = _vary(rnd, a) if rnd.random() < 0.7 else dc.rand_type(rnd, rnd.choice((0, 0, 1, 2)))
+        try:
+            dc.build_type(b)
+        except Exception:   # noqa: the variation produced an ill-formed type (min > max): not a case
+            continue
         recs.append(dc.compat_record(a, b, {'via': 'random'}))
         recs.append(dc.compat_record(b, a, {'via': 'random'}))
     return recs
@@ -112,7 +120,7 @@ def _vary(rnd, a):
     d = lambda: rnd.choice((-16, -1, 0, 0, 1, 16))   # noqa
     if k == 'double':
         lo = a['min'] if a['min'] == -dc.NOLIM or rnd.random() < 0.1 else a['min'] + d()
-        hi = a['max'] if a['max'] == dc.NOLIM or rnd.random() < 0.1 else max(a['max'] + d(), lo if lo != -dc.NOLIM else -10 ** 6)
+        hi = a['max'] if a['max'] == dc.NOLIM else max(a['max'] + (0 if rnd.random() < 0.1 else d()), lo if lo != -dc.NOLIM else -10 ** 6)
         if rnd.random() < 0.1:
             return {'k': 'scaled', 'scale': 4, 'min': (max(lo, -4000) // 4) * 4, 'max': (max(min(hi, 4000), max(lo, -4000)) // 4) * 4 + 4}
         return dict(a, min=lo, max=hi)
@@ -125,7 +133,8 @@ def _vary(rnd, a):
             if vals:
                 return {'k': 'enum', 'mem': [{'n': 'v%d' % i, 'v': v} for i, v in enumerate(vals)]}
         if r < 0.45:
-            return {'k': 'double', 'min': (a['min'] + d() // 16) * 16, 'max': (a['max'] + 1) * 16 + d(), 'abs': 0, 'rel': 0}
+            lo = (a['min'] + d() // 16) * 16
+            return {'k': 'double', 'min': lo, 'max': max(lo, (a['max'] + 1) * 16 + d()), 'abs': 0, 'rel': 0}
         lo = a['min'] + d() // 16
         return dict(a, min=lo, max=max(lo, a['max'] + d() // 16))
     if k == 'scaled':
@@ -260,7 +269,7 @@ def run(chk):
     for r in recs:
         if r['kind'] == 'alias' and r['dt']['k'] == 'int' and not probes:
             x = json.loads(json.dumps(r))
-            x['after']['kv'][0]['v']['n'] += 1
+            x['after']['kv'][1]['v']['s'] += ' '
             probes.append(x)
         if r['kind'] == 'compat' and r['passes'] and r['a']['k'] == 'blob' and r['b']['k'] == 'blob' and len(probes) < 2 \
                 and r['a']['maxb'] <= r['b']['maxb']:
@@ -305,7 +314,7 @@ def run(chk):
 
 
 def _shard(job):
-    return _pairs_shard(job[1:]) if job[0] == 'p' else _eq_shard(job[1:])
+    return dc.safe(_pairs_shard if job[0] == 'p' else _eq_shard, job[1:])
 
 
 def replay(chk, rep):
